@@ -1,6 +1,6 @@
 (* Base.v — shared vocabulary of the model: bytes, results, error classes, hex decoding.
    Definitions only (total, computable).  Bytes are Z in [0,256). *)
-From Coq Require Export ZArith List Bool String Ascii.
+From Coq Require Export ZArith Bool String Ascii List.
 Export ListNotations.
 Open Scope Z_scope.
 
